@@ -280,16 +280,17 @@ def _stream_bytes(corr: Corr, ctx) -> None:
 
     from aiomysensors import exceptions as exc
     from aiomysensors.gateway import Gateway
-    from aiomysensors.transport import StreamTransport
+    from unittest import mock
 
-    class Mem(StreamTransport):
-        def __init__(self, data: bytes) -> None:
-            super().__init__()
-            self.data = data
+    from aiomysensors.transport import tcp as tcp_mod
+    from aiomysensors.transport.tcp import TCPTransport
 
-        async def _open_connection(self):
+    def Mem(data: bytes):
+        """A stream transport over an in-memory reader holding `data`: the base class through its abstract hook while
+        that (private) hook has the known shape, else a TCP transport whose `asyncio.open_connection` is this opener."""
+        async def opener(**_kw):
             r = asyncio.StreamReader(limit=64)
-            r.feed_data(self.data)
+            r.feed_data(data)
             r.feed_eof()
 
             class W:
@@ -298,6 +299,18 @@ def _stream_bytes(corr: Corr, ctx) -> None:
                 def close(self): pass
                 async def wait_closed(self): pass
             return r, W()
+
+        direct = lib.direct_stream_transport(opener)
+        if direct is not None:
+            return direct
+        tr = TCPTransport("mem.example", 5003)
+        connect = tr.connect
+
+        async def connect_in_memory():
+            with mock.patch.object(tcp_mod.asyncio, "open_connection", opener):
+                await connect()
+        tr.connect = connect_in_memory     # the harness calls connect() itself (never inside a Gateway context here)
+        return tr
 
     datas = [b"\xff\xfe\n", b"1;255;3;0;9;ok\n\xc3\n", b"0;255;3;0;9;\xe2\x82\n", b"no newline", b"", b"x" * 100 + b"\n",
              b"1;2;3\n", b"\n\n", b"0;255;3;0;9;caf\xc3\xa9\n", b"\xed\xa0\x80\n", b"\xf4\x90\x80\x80\n", b"\xc0\xaf\n"]
